@@ -132,7 +132,7 @@ def run_profile(args):
     if res.rc != 0 or "Error:" in tail:
         return {"name": name, "error": f"TLC rc={res.rc}\n{tail[-2500:]}"}
     truncated = bool(res.raw_tail and res.raw_tail[-1] == "BUDGET")
-    return {"name": name, "profile": prof, "truncated": truncated, "states": res.distinct or len(eng.reps), "generated": res.generated,
+    return {"name": name, "profile": prof, "truncated": truncated, "states": res.distinct or len(eng.reps), "generated": max(res.generated, eng.n_trans),
             "transitions_replayed": eng.n_trans, "skipped": eng.n_skipped, "initial": eng.n_init,
             "by_op": eng.by_op, "by_out": eng.by_out, "loose": eng.loose_taken,
             "eqhash": eng.eqhash_checks, "reps": len(eng.reps), "samples": eng.samples,
